@@ -8,7 +8,7 @@ import (
 )
 
 func init() {
-	Register(&Scenario{Prop: "C19", Name: "progress-monotone", Run: scenC19, Weight: 1,
+	Register(&Scenario{Prop: "C19", Name: "progress-monotone", Run: scenC19, SoftParks: true, Weight: 1,
 		Rule: "1-3 writer replicas, one database per instance (type drawn per run); 3-14 (thorough 3-40) writes (single, or 1-3 concurrent local writers stopped at the write-path points while replication goes on) with replication under faults, far-ahead heads (one writer runs ahead while links are cut), clean restart + Load(-1); GetProgress/GetMax sampled on every open store after every kernel step must never decrease; whenever the world is at rest and a replica's log is complete: progress == max and maxLamport <= progress <= Len; non-trivial = >=3 writes, >=1 at-rest check on a replica that replicated >=1 entry (or single replica), >=20 samples"})
 }
 
